@@ -39,6 +39,7 @@ Shapes ==
     A3  |-> [t |-> Arr(SIN, 2), isptr |-> FALSE],
     A4  |-> [t |-> Arr(C16, 3), isptr |-> FALSE],
     A5  |-> [t |-> Arr(CH, 0 - 1), isptr |-> FALSE],
+    A6  |-> [t |-> Arr(C16, 0 - 1), isptr |-> FALSE],
     P1  |-> [t |-> U16, isptr |-> TRUE],
     PC  |-> [t |-> CH, isptr |-> TRUE] ]
 
@@ -60,6 +61,7 @@ FieldsDisjoint(f, g) ==      \* two fields that never determine the same bit
                ELSE IF h.t.size >= 0 THEN 8 * (h.off + h.t.size) ELSE 8 * h.off + 100000
   IN hi(f) <= lo(g) \/ hi(g) <= lo(f)
 
+StrPool16 == {65, 65535, 65536, 1114111}        \* 'A', U+FFFF (last one-unit), U+10000 (first pair), U+10FFFF
 RECURSIVE Inits(_, _)
 FieldInits(f, d) == IF f.bs >= 0 THEN BitsInits(f.bs) ELSE Inits(f.t, d)
 Inits(T, d) ==
@@ -68,9 +70,15 @@ Inits(T, d) ==
          LET kmax == IF T.len < 0 THEN KMax ELSE Min2(T.len, KMax)
              seqs == IF d = 0 THEN {Mk("seq", <<>>, <<>>, 0)}
                      ELSE {Mk("seq", <<>>, f, 0) : f \in UNION {[1..k -> Inits(T.item, d - 1)] : k \in 0..kmax}}
+             \* bytes / str initializers are sequences of characters; what bounds them is the number of UNITS.
+             \* Width 2: every string of <= 2 characters over StrPool16 = one-unit and two-unit code points,
+             \* including both sides of the boundary (U+FFFF, U+10000) and the last code point.
+             chars == IF T.item.size = 2 THEN StrPool16 ELSE {65, 66}
+             cands == IF T.item.size = 2 THEN UNION {[1..k -> chars] : k \in 0..2} \cup {<<65, 66, 67>>}
+                      ELSE {<<>>, <<65>>, <<65, 66>>, <<65, 66, 67>>}
              strs == IF T.item.k = "prim" /\ T.item.chr = 1
                        THEN {Mk("str", u, <<>>, T.item.size) :
-                               u \in {x \in {<<>>, <<65>>, <<65, 66>>, <<65, 66, 67>>} : T.len < 0 \/ Len(x) <= T.len}}
+                               u \in {x \in cands : T.len < 0 \/ Len(StrUnits(x, T.item.size)) <= T.len}}
                        ELSE {}
              copy == IF T.len >= 0 THEN {Mk("copy", [i \in 1..T.size |-> 16 + i], <<>>, 0)} ELSE {}
              lens == IF T.len < 0 THEN {Mk("len", <<>>, <<>>, 0), Mk("len", <<>>, <<>>, 2)} ELSE {}
